@@ -1985,6 +1985,67 @@ fn invisible_names(cx: &mut Cx)
 	cx.report.hit_n("projects mixing an import with an invisible name", n as u64);
 }
 
+// ------------------------------------------------------------------------------------------------
+// the SAME file included two or three times (`repeat <project> <alias,…>`, alias = `dup>orig`): diamond (two siblings include one
+// common file), twice in a row, once per sibling, nested. The project holds one copy per occurrence (the rules apply per occurrence);
+// on disk every occurrence is the one original file.
+
+fn check_repeat(cx: &mut Cx, p: &Project, alias: &[(usize, usize)], serial: u64)
+{
+	let input = format!("repeat {} {}", p.encode(), alias.iter().map(|(d, o)| format!("{d}>{o}")).collect::<Vec<_>>().join(","));
+	let fl = flatten(p);
+	let names = names_of(p);
+	let mut texts: Vec<String> = (0..p.files.len()).map(|i| p.text(i)).collect();
+	for t in texts.iter_mut() {for (d, o) in alias {*t = t.replace(&format!("\"f{d}.asm\""), &format!("\"f{o}.asm\""));}}
+	for (d, o) in alias {if p.files[*d] != p.files[*o] {cx.report.oracle_fail(input, "harness error: an alias must have the content of its original"); return;}}
+	let obs = observe_texts(p, &cx.work.join(format!("r{}", serial % 16)), &fl, &names, &[0], Some(&texts));
+	cx.report.case(Some(&canon_obs(&obs)));
+	cx.report.hit("project with a file included more than once");
+	if let Some(msg) = &obs.panic {cx.report.oracle_fail(input, format!("the real Context panicked: {msg}")); return;}
+	match reference(p, &fl)
+	{
+		Verdict::Clean(res) =>
+		{
+			if !obs.diags.is_empty() || !obs.final_ok {cx.report.oracle_fail(input.clone(), format!("every occurrence is fine by the scope rules; the assembler reports {:?} (finalize {})", obs.diags, obs.final_ok));}
+			for (tag, (v, _)) in &res
+			{
+				if obs.values.get(tag).map(|x| *x as i64) != Some(*v) {cx.report.oracle_fail(input.clone(), format!("the use at f{}.asm:{} (occurrence copy) must hold {v}, the image holds {:?}", file_of_tag(*tag), line_of_tag(*tag), obs.values.get(tag)));}
+			}
+		},
+		_ => cx.report.hit("repeat: not clean by the rules (not judged)"),
+	}
+}
+
+fn repeated_includes(cx: &mut Cx)
+{
+	let templates: [(&str, &str); 8] = [
+		("i:1,i:2/i:3,u:K/i:4,u:K/c:K:V7,e:K/c:K:V7,e:K", "4>3"),
+		("i:1,i:2/c:t:V5,u:t/c:t:V5,u:t", "2>1"),
+		("i:1,u:a,i:2,i:3/l:x,u:x,c:a:V9,e:a/l:x,u:x,c:a:V9,e:a/l:x,u:x,c:a:V9,e:a", "2>1,3>1"),
+		("c:g:V5,g:g,i:1,i:2,u:g/m:g,u:g,c:t:V1,u:t/m:g,u:g,c:t:V1,u:t", "2>1"),
+		("i:1/i:2,i:3,u:K/c:K:V3,u:K/c:K:V3,u:K", "3>2"),
+		("i:1,i:3/i:2,u:K/c:K:V4,e:K/i:4,u:K,i:5/c:K:V4,e:K/c:K:V4,e:K", "4>2,5>2"),
+		("g:late,i:1,i:2,c:late:V6/m:late,u:late/m:late,u:late", "2>1"),
+		("i:1,i:2,i:3/i:4,u:K/u:z,c:z:V1/i:5,u:K/c:K:V8,g:K/c:K:V8,g:K", "5>4"),
+	];
+	let mut serial = 0u64;
+	let n = if cx.thorough() {400} else {40};
+	for (proj, al) in templates
+	{
+		let alias: Vec<(usize, usize)> = al.split(',').map(|x| {let (d, o) = x.split_once('>').unwrap(); (d.parse().unwrap(), o.parse().unwrap())}).collect();
+		for _ in 0..n
+		{
+			// other values each time (the same in every copy)
+			let v = 1 + cx.rng.below(200);
+			let mut text = proj.to_owned();
+			for k in 1..=9u64 {text = text.replace(&format!("V{k}"), &format!("{}", k + v));}
+			let p = Project::decode(&text).expect("repeat template");
+			check_repeat(cx, &p, &alias, serial);
+			serial += 1;
+		}
+	}
+}
+
 pub fn run(_id: &str, cx: &mut Cx)
 {
 	cx.report.rule = "projects = include trees (depth <= 4, fan-out <= 3, <= 9 files) of .const/label/.global/.import/.export/.include statements and uses, a use being .du32 <name> or an instruction whose operand goes through one of the evaluator arms (SVC, UDF.N, UDF.W, RSBS / MOVS, CMP / B, BKPT / LDRB / LDR literal, LDR reg+offset) with every name confined to a value class encodable in its spellings, written to disk and assembled by the real Context; \
@@ -1993,6 +2054,17 @@ non-trivial = at least one used value or one diagnostic observed; distinct = dis
 	let mut serial = 0u64;
 	if let Some(input) = cx.replay.clone()
 	{
+		if let Some(rest) = input.strip_prefix("repeat ")
+		{
+			let w: Vec<&str> = rest.split(' ').collect();
+			let alias: Option<Vec<(usize, usize)>> = w.get(1).map(|m| m.split(',').filter_map(|x| x.split_once('>').and_then(|(d, o)| Some((d.parse().ok()?, o.parse().ok()?)))).collect());
+			match (w.first().and_then(|x| Project::decode(x)), alias)
+			{
+				(Some(p), Some(a)) if p.is_tree() && a.iter().all(|(d, o)| *d < p.files.len() && *o < p.files.len()) => check_repeat(cx, &p, &a, 0),
+				_ => cx.report.oracle_fail(input, "unrecognised replay input"),
+			}
+			return;
+		}
 		if let Some(rest) = input.strip_prefix("list ")
 		{
 			let w: Vec<&str> = rest.split(' ').collect();
@@ -2047,6 +2119,7 @@ non-trivial = at least one used value or one diagnostic observed; distinct = dis
 	multi_name(cx);
 	list_forms(cx);
 	invisible_names(cx);
+	repeated_includes(cx);
 	let sc = scenarios();
 	cx.report.hit_n("scenario projects", sc.len() as u64);
 	for p in &sc {assert!(p.is_tree(), "scenario is not a tree: {}", p.encode());}
